@@ -496,8 +496,7 @@ func ensureBaseline() {
 	}
 	// Package-level state may legitimately change during first use only where it
 	// is a lazily filled cache: a variable that held its zero value before.
-	zero0 := emptyGlobals()
-	g0, _ := globalsImage()
+	zero0, g0 := coldEmpty, coldGlobals // taken before the first library call of this process (aaa_cold.go)
 	baseline.firstProbe = warmUp()
 	baseline.globals, _ = globalsImage()
 	l0, l1 := strings.Split(g0, "\n"), strings.Split(baseline.globals, "\n")
@@ -802,6 +801,9 @@ func raceFamily() mc.Family {
 		Rule: "one free-running execution under the Go race detector",
 		Body: func(c *mc.Ctx, item int) mc.Verdict {
 			bin := os.Getenv("VERIF_ROOT") + "/build/bin/c18race"
+			if b := os.Getenv("VERIF_RACE_BIN"); b != "" {
+				bin = b // tools/mutrun.sh: the pass built from a changed copy of the library
+			}
 			if _, err := os.Stat(bin); err != nil {
 				return mc.Pass("race-binary-not-built", false)
 			}
